@@ -164,6 +164,14 @@ func vfC13Scenarios(thorough bool) []*vfGWScenario {
 			Validators: []vfValCfg{{Name: "V", Topic: "t", Gated: true, GateOnly: []string{"m1"}}}},
 			Alphabet: alphabet, Msgs: msgs, Depth: d, Leaf: []string{"retire"}})
 	}
+	// two peers behind one IP address (the gater and the scorer keep per-IP state shared between them)
+	for _, proto := range []string{"v11"} {
+		peers := []vfPeerCfg{{Name: "p", Proto: proto, IP: "10.0.0.1"}, {Name: "q", Proto: "v12", IP: "10.0.0.1"}}
+		out = append(out, &vfGWScenario{Name: "shared-ip-" + proto, Cfg: vfGWCfg{Router: "gossip", Peers: peers, Topics: []string{"t"}, Params: "d2", Scoring: true, ScoreTopics: true,
+			Gater: true, TestExt: true, DecayMs: 1000, ScoreSeenS: 5, SeenTTL: 5, Prefix: []string{"conn:q", "sub:q:t", "join:t", "pub:q:m3"},
+			Validators: []vfValCfg{{Name: "V", Topic: "t", Gated: true, GateOnly: []string{"m1"}}}},
+			Alphabet: []string{"conn:p", "disc:p", "inclose:p", "inopen:p", "outreset:p", "sub:p:t", "graft:p:t", "pub:p:m1", "vrel:V:m1:A", "disc:q", "conn:q", "hb"}, Msgs: msgs, Depth: d, Leaf: []string{"retire"}})
+	}
 	return out
 }
 
